@@ -74,16 +74,14 @@ econf_getExtValue(econf_file *kf, const char *group,
   char *value_string = NULL;
   getStringValueNum(*kf, num, &value_string);
 
-  char buf[BUFSIZ];
+  char *buf = NULL;
   char *line;
   size_t n_del = 0;
 
   (*result)->values = NULL;
 
   if (value_string!=NULL) {
-    strncpy(buf,value_string,BUFSIZ-1);
-    buf[BUFSIZ-1] = '\0';
-    free(value_string);
+    buf = value_string;
     value_string = trim(buf);
 
     if (value_string[0] == '\"')
@@ -107,6 +105,8 @@ econf_getExtValue(econf_file *kf, const char *group,
       }
     }
   }
+
+  free(buf);
 
   /* realloc one extra element for the last 0 */
   (*result)->values = realloc ((*result)->values, sizeof (char*) * ++n_del);
